@@ -67,6 +67,11 @@ CHECKS = {
         technique="runtime history-invariant monitor: the same definition multiset loaded by the real loader in many orders and file splits; canonical registry dumps compared byte for byte",
         text="Entry-level permutations of the parsed bundled file (identity, reversal, dependency-reversed, rotations, seeded shuffles), text-level pieces parsed as separate files in shuffled order, and generated databases with deep/wide/diamond dependency graphs shuffled and split into 1..3 files must all load without error into byte-identical databases (prefix order included).",
         note="Only uniquely named definitions are permuted (duplicates keep relative order, last-wins by design); explores sampled permutations, not all n!."),
+    "C13": dict(
+        category="exploration", design_ref="DESIGN.md §2 C13",
+        technique="runtime event + invariant monitor: hostile definition files, currency JSON and date-pattern files loaded by the real loader under a panic hook and watchdogs; dropped entries matched against reported messages; follow-up queries on the partially loaded context",
+        text="Mutants of the bundled files (line/token deletion, duplication, swapping, truncation, CRLF), damaged currency JSON, grammar-directed random files with zero/negative/mismatched substance properties and unknown pragmas, dependency cycles through units, prefixes, quantities and substance properties of length 1..5000 and chains to 5000, random date-pattern files: no panic, abort or hang; cycles reported; every dropped entry mentioned in a message; the context still answers queries about loaded and broken names.",
+        note="Depth bound claimed: 5000 definitions per chain/cycle on an 8 MiB stack; an entry counts as reported when a message mentions its name."),
     "C14": dict(
         category="exploration", design_ref="DESIGN.md §2 C14",
         technique="runtime reference-model monitor: literals rendered from chosen instants per documented pattern; instants recovered from replies and compared with an independent proleptic-Gregorian integer-nanosecond calendar",
